@@ -413,6 +413,7 @@ func (d Doc) hcl(locals, redefine bool) string {
 		for i, r := range d.Requests {
 			if redefine {
 				lb.SetAttributeValue(fmt.Sprintf("h%d", i), ctyMap(map[string]string{"Stale": "1"}))
+				lb.SetAttributeValue(fmt.Sprintf("hh%d", i), ctyMap(r.Headers))
 			} else {
 				lb.SetAttributeValue(fmt.Sprintf("h%d", i), ctyMap(r.Headers))
 			}
@@ -428,8 +429,9 @@ func (d Doc) hcl(locals, redefine bool) string {
 			lb2.SetAttributeValue(fmt.Sprintf("r%d", i), ctyList(s.Requests))
 		}
 		if redefine {
-			for i, r := range d.Requests {
-				lb2.SetAttributeValue(fmt.Sprintf("h%d", i), ctyMap(r.Headers))
+			// (not the first attribute of its block, and built from a local of the earlier block)
+			for i := range d.Requests {
+				lb2.SetAttributeRaw(fmt.Sprintf("h%d", i), exprTokens(fmt.Sprintf("merge(local.hh%d, local.empty)", i)))
 			}
 		}
 	}
